@@ -51,8 +51,10 @@ func processModifiersCore[T any](
 
 	// Default/DefaultFunc — short-circuit, highest priority.
 	if v := resolveDefault(internals); v != nil {
-		if hasOverwriteCheck(internals.Checks) {
-			r, err := ApplyChecks(v, internals.Checks, ctx)
+		// A default bypasses validation; only the value-rewriting checks (Trim, Overwrite, ...)
+		// still apply to it.
+		if ow := overwriteChecks(internals.Checks); len(ow) > 0 {
+			r, err := ApplyChecks(v, ow, ctx)
 			return r, true, err
 		}
 		return v, true, nil
@@ -120,6 +122,20 @@ func filterNilChecks(checks []core.ZodCheck) []core.ZodCheck {
 		}
 		switch ci.Def.Check {
 		case "overwrite", "refine", "custom":
+			out = append(out, c)
+		}
+	}
+	return out
+}
+
+// overwriteChecks returns the overwrite checks of checks, in order.
+func overwriteChecks(checks []core.ZodCheck) []core.ZodCheck {
+	var out []core.ZodCheck
+	for _, c := range checks {
+		if c == nil {
+			continue
+		}
+		if ci := c.Zod(); ci != nil && ci.Def != nil && ci.Def.Check == "overwrite" {
 			out = append(out, c)
 		}
 	}
